@@ -729,3 +729,115 @@ func ExpandConds(conds []Cond) []Cond {
 	}
 	return out
 }
+
+// ---- helper functions extracted from an owner ---------------------------------
+
+// StaticCallers: the functions containing a static call of fn; asValue reports whether fn is also
+// used as a value (stored, passed), in which case its callers are not all known.
+func (c *Ctx) StaticCallers(fn *ssa.Function) (callers []*ssa.Function, asValue bool) {
+	if c.callerIdx == nil {
+		c.callerIdx = map[*ssa.Function][]*ssa.Function{}
+		c.valueUse = map[*ssa.Function]bool{}
+		for _, g := range c.SrcFuncs() {
+			Instrs(g, false, func(in ssa.Instruction) {
+				if ci, ok := in.(ssa.CallInstruction); ok {
+					if callee := ci.Common().StaticCallee(); callee != nil {
+						top := g
+						for top.Parent() != nil {
+							top = top.Parent()
+						}
+						c.callerIdx[callee] = append(c.callerIdx[callee], top)
+					}
+				}
+				for _, op := range in.Operands(nil) {
+					if f, ok := (*op).(*ssa.Function); ok {
+						if ci, isCall := in.(ssa.CallInstruction); isCall && ci.Common().Value == ssa.Value(f) {
+							continue
+						}
+						if _, isMC := in.(*ssa.MakeClosure); isMC {
+							continue
+						}
+						c.valueUse[f] = true
+					}
+				}
+			})
+		}
+	}
+	return c.callerIdx[fn], c.valueUse[fn]
+}
+
+// OwnedBy: fn (its enclosing top-level function) satisfies pred, or is an unexported function that is
+// never used as a value and whose every static caller is OwnedBy pred (a helper extracted from such
+// a function, directly or through other helpers).
+func (c *Ctx) OwnedBy(fn *ssa.Function, pred func(*ssa.Function) bool) bool {
+	return c.ownedBy(fn, pred, 0, map[*ssa.Function]bool{})
+}
+
+func (c *Ctx) ownedBy(fn *ssa.Function, pred func(*ssa.Function) bool, depth int, seen map[*ssa.Function]bool) bool {
+	top := fn
+	for top.Parent() != nil {
+		top = top.Parent()
+	}
+	if pred(top) {
+		return true
+	}
+	if depth > 3 || seen[top] {
+		return false
+	}
+	seen[top] = true
+	if o := top.Object(); o == nil || o.Exported() {
+		return false
+	}
+	callers, asValue := c.StaticCallers(top)
+	if asValue || len(callers) == 0 {
+		return false
+	}
+	for _, g := range callers {
+		if g == top {
+			continue // recursion
+		}
+		if !c.ownedBy(g, pred, depth+1, seen) {
+			return false
+		}
+	}
+	return true
+}
+
+// Family: fn, its closures, and the helpers it owns (unexported functions, never used as values,
+// all of whose static callers belong to the family), transitively. Rules that look for a construct
+// "in fn" look in its family, so that moving a block into a helper called from fn alone does not
+// hide it.
+func (c *Ctx) Family(fn *ssa.Function) []*ssa.Function {
+	fam := map[*ssa.Function]bool{fn: true}
+	order := []*ssa.Function{fn}
+	for changed := true; changed; {
+		changed = false
+		for _, f := range append([]*ssa.Function{}, order...) {
+			for _, ci := range CallsIn(f, true) {
+				g := ci.Common().StaticCallee()
+				if g == nil || fam[g] || !c.InRepo(g) || g.Blocks == nil || g.Parent() != nil {
+					continue
+				}
+				if o := g.Object(); o == nil || o.Exported() {
+					continue
+				}
+				callers, asValue := c.StaticCallers(g)
+				if asValue {
+					continue
+				}
+				all := true
+				for _, cl := range callers {
+					if !fam[cl] && cl != g {
+						all = false
+					}
+				}
+				if all {
+					fam[g] = true
+					order = append(order, g)
+					changed = true
+				}
+			}
+		}
+	}
+	return order
+}
